@@ -638,6 +638,65 @@ def rule_r12(prog, res):
     res.share('R12', txt, 'C02', c02.rule_r11, prog, Result)
 
 
+# ------------------------------------------------------------------ R13
+def rule_r13(prog, res):
+    res.rule('R13', 'namespace cleanup of response documents keeps the '
+             'prefixes that occur only inside xsi:type values')
+    n = 0
+    for mod in prog.modules.values():
+        if not (mod.relpath == 'spyne/protocol/xml.py' or
+                mod.relpath.startswith('spyne/protocol/soap/')):
+            continue
+        for f in mod.functions.values():
+            for c in calls_in(f.node):
+                if call_name(c) != 'cleanup_namespaces' or not (
+                        isinstance(c.func, ast.Attribute) and
+                        dotted(c.func.value) in ('etree', 'lxml.etree')):
+                    continue
+                n += 1
+                kw = [k.value for k in c.keywords
+                      if k.arg == 'keep_ns_prefixes']
+                srcs = []
+                if kw:
+                    names = {x.id for x in ast.walk(kw[0])
+                             if isinstance(x, ast.Name)}
+                    for a in walk_no_defs(f.node):
+                        tgt = []
+                        if isinstance(a, ast.Assign):
+                            tgt = a.targets
+                        elif isinstance(a, ast.For):
+                            tgt = [a.target]
+                        if any(isinstance(t, ast.Name) and t.id in names
+                               for t in tgt):
+                            srcs.append(unparse(a.value if isinstance(
+                                a, ast.Assign) else a.iter))
+                    # one more hop: loop variables feeding the kept set
+                    for a in walk_no_defs(f.node):
+                        if isinstance(a, ast.For):
+                            body_names = {x.id for st in a.body
+                                          for x in ast.walk(st)
+                                          if isinstance(x, ast.Name)}
+                            if names & body_names:
+                                srcs.append(unparse(a.iter))
+                    srcs.append(unparse(kw[0]))
+                ok = bool(kw) and any('xsi:type' in s_ or 'XSI_TYPE' in s_
+                                      for s_ in srcs)
+                where = '%s:%d' % (mod.relpath, c.lineno)
+                res.ob('R13', where, '%s: %s' % (f.qualname,
+                                                 unparse(c)[:70]),
+                       'ok' if ok else 'VIOLATED')
+                if not ok:
+                    res.finding('R13', '%s|cleanup-drops-type-prefix' %
+                                f.qualname, where, '%s cleans the response '
+                                'up with %s: lxml does not see prefixes '
+                                'inside attribute values, so the declaration '
+                                'of the prefix an xsi:type marker uses is '
+                                'removed whenever no element name uses it '
+                                '(an instance whose members are all None)' %
+                                (f.qualname, unparse(c)[:60]))
+    res.floor('R13', 'namespace cleanups in the XML protocols', n, 1)
+
+
 def run(prog, res, tier):
     res.run_rule(rule_r1, prog, res)
     res.run_rule(rule_r2, prog, res)
@@ -651,6 +710,7 @@ def run(prog, res, tier):
     res.run_rule(rule_r10, prog, res)
     res.run_rule(rule_r11, prog, res)
     res.run_rule(rule_r12, prog, res)
+    res.run_rule(rule_r13, prog, res)
 
 
 _C = 'spyne/model/complex.py'
@@ -660,6 +720,17 @@ _I = 'spyne/interface/_base.py'
 _H = 'spyne/protocol/dictdoc/hier.py'
 
 MUTANTS = [
+    Mutant('plain-namespace-cleanup', 'R13', 'fire', 'spyne/protocol/xml.py',
+           in_func('XmlDocument.serialize',
+                   "self._cleanup_namespaces(ctx.out_document)",
+                   "etree.cleanup_namespaces(ctx.out_document)"),
+           'cleanup-drops-type-prefix'),
+    Mutant('soap-plain-namespace-cleanup', 'R13', 'fire',
+           'spyne/protocol/soap/soap11.py',
+           in_func('Soap11.serialize',
+                   "self._cleanup_namespaces(ctx.out_document)",
+                   "etree.cleanup_namespaces(ctx.out_document)"),
+           'cleanup-drops-type-prefix'),
     Mutant('xsi-prefix-declaration-dropped', 'R11', 'fire',
            'spyne/protocol/xml.py',
            in_func('XmlDocument.gen_members_parent',
